@@ -65,3 +65,28 @@ TEXT["C08"] = dict(
          "Correspondence: real engines (incl. cancellation at arbitrary instants), real GetPublicIP over a stalling RoundTripper and real reverse-DNS fan-out over a stalled resolver, elapsed virtual time compared exactly.",
     note="PARTIAL: oracles — Source.Read returns by its deadline; HTTP client / resolver return by the deadline of the context they are given. SACK dial + handshake-read bounds and the RunTraceroute-level sum are stated in DESIGN but not yet modelled; serial-engine cancellation is checked on the implementation only.",
     technique="Coq proof (fuel-indexed induction on timed engine models, bound invariant) + differential timing of the real code under synctest's virtual clock")
+
+_DRVNOTE = ("Tie kind B. The byte-level decoders/builders model third-party gopacket code and are validated, not verified; the theorems are about the matchers' logic on the parsed view plus the decoders' totality. "
+            "Probe table = what the real driver stored (replayed from observed sends).")
+TEXT["C01"] = dict(text="Coq theorems, all variants / tables / packets / clocks: a hop (t, a) implies the packet is a genuine reply to this run's probe with TTL t (quoted flow + full-width identifier, or a direct reply on the probe's flow), sent by a; lifted to raw bytes and through both engines (every non-empty hop is an accepted reply for that TTL). "
+    "Correspondence: ~120k operations of the real drivers (catalogue x perturbation lattice x variants x wrap-around bases) vs the model, with `genuine` evaluated on every hop the implementation reports.", note=_DRVNOTE,
+    technique="Coq proof (case analysis of the matchers against an independent genuineness predicate) + differential run of the real drivers over the full perturbation lattice")
+TEXT["C02"] = dict(text="Coq theorem: every packet whose parsed view is a genuine reply to the probe with TTL t yields the hop (t, responder, right destination flag) — with soundness, the matcher decides exactly `genuine`. "
+    "Correspondence: every catalogue form built by independent builders from the emitted probe bytes must be recognised with the expected TTL and responder, for every variant incl. strict/relaxed and ISN/base wrap-around.",
+    note=_DRVNOTE + " PARTIAL: byte-level completeness per catalogue form (codec lemmas) and the engine lift (reply before deadline appears in the result) are checked by correspondence only.",
+    technique="Coq proof (matcher = genuineness predicate, both directions) + differential run of the real drivers on an independently built device catalogue")
+TEXT["C04"] = dict(text="Coq theorems: destination flag = the protocol's proof-of-arrival predicate on the packet used; a reply from any non-target address is never proof of arrival; a time-exceeded never marks the destination for ICMP/TCP SYN; e2e RTT = destination hop's RTT or 0. "
+    "Correspondence: each destination-form reply from the target, from a router and (lattice) from other addresses with identical identifiers, through the real drivers; e2e value through the real RunTraceroute.", note=_DRVNOTE,
+    technique="Coq proof (case analysis) + differential run of the real drivers with target / foreign / router responders")
+TEXT["C05"] = dict(text="Coq theorems: a hop's RTT = processing instant - send instant of a probe of this run with that TTL (never another probe's), >= 0 on a monotone clock; engines keep the first accepted reply per TTL (destination override excepted) with the driver's RTT; e2e RTT = destination hop's RTT or 0. "
+    "Correspondence under a virtual clock: exact ns RTTs of the real drivers and engines (non-monotone delays, duplicates, overtaking, stale replies).",
+    note=_DRVNOTE + " PARTIAL: wake-up latency of a blocked read (<= one poll interval) is runtime behaviour, measured under synctest, not proved.",
+    technique="Coq proof (matcher soundness carries the send time; merge rule) + exact virtual-clock timing of the real drivers and engines")
+TEXT["C06"] = dict(text="Coq theorems: TTL/hop-limit byte = probed TTL for every builder; identifiers unique per run at every base incl. wrap-around; IPv4 header, ICMPv4 and all TCP segment checksums verify for all field values; emitted TTLs = first, first+1, ... in every interleaving; pacing / stop-after-destination on the timed models via C08's models. "
+    "Correspondence: byte-for-byte equality of the real builders' output with the model over all 255 TTLs x variants x wrap-around bases, an independent well-formedness + receiver-side checksum check on the emitted bytes, and the send log of full engine runs.",
+    note=_DRVNOTE + " PARTIAL: UDP and ICMPv6 checksum validity is checked on the emitted bytes, not yet proved. Observation (not a finding): gopacket emits a computed UDP checksum of 0 as 0, which IPv6 forbids (1 in 65535 probes).",
+    technique="Coq proof (one's-complement arithmetic, modular injectivity, transition-system invariant) + byte-exact differential run of the real packet builders")
+TEXT["C09"] = dict(text="Coq theorems, every non-empty byte string / variant / state: the outcome is hop, skip or SACK's not-supported, never a run-aborting error; not-supported iff the packet is a non-SYN/FIN/RST segment from the target on the probed connection without SACK blocks; results depend on accepted replies only. "
+    "Correspondence: every truncation length and byte flip of every genuine reply, random bytes, own probes, pre-send traffic through the real drivers: never a panic or fatal error, outcome = model.",
+    note=_DRVNOTE + " PARTIAL: freedom from panics inside gopacket / x/net/icmp is exercised (recover around every call), not proved; the zero-length read is fatal by design and unreachable behind the installed filters (DESIGN).",
+    technique="Coq proof (totality of decoders + case analysis of matchers) + differential run of the real drivers on the malformed stream")
